@@ -48,6 +48,6 @@ def main(tier, replay=None):
         PROP, tier, gen_cases(tier), run_case,
         "one trace per generated contract pair (9 wiring schemas), one event per (vars_to_keep, simplify, tactics_order); "
         "non-trivial = compose returned a contract and some variable was eliminated by a tactic >= 1; distinct by digest of the call",
-        replay=replay,
+        replay=replay, design=("Alg_compose_quick.cfg", "Alg_compose.cfg"),
         nontrivial=lambda ev: ev["exc"] == "none" and bool(ops.tactics_used(ev)),
     )
